@@ -276,37 +276,39 @@ fn run_concrete(code: &[u8], m: &Model) -> Result<Vec<CState>, String> {
 // evaluator of symbolic values
 // ------------------------------------------------------------------------------------------------
 /// None: the tree contains something that is not a function of constants (a culled `Value`, an environment read ...)
-pub(crate) fn ev(v: &Arc<RSV>) -> Option<U256> {
+/// evaluation with an environment for the leaves the EVM semantics does not determine (opaque values, call data, ...)
+pub(crate) fn ev_env(v: &Arc<RSV>, env: &dyn Fn(&RSVD) -> Option<U256>) -> Option<U256> {
     Some(match v.data() {
         RSVD::KnownData { value } => value.value_le(),
-        RSVD::Add { left, right } => ev(left)?.wrapping_add(ev(right)?),
-        RSVD::Multiply { left, right } => ev(left)?.wrapping_mul(ev(right)?),
-        RSVD::Subtract { left, right } => ev(left)?.wrapping_sub(ev(right)?),
-        RSVD::Divide { dividend, divisor } => r_div(ev(dividend)?, ev(divisor)?),
-        RSVD::SignedDivide { dividend, divisor } => r_sdiv(ev(dividend)?, ev(divisor)?),
-        RSVD::Modulo { dividend, divisor } => r_mod(ev(dividend)?, ev(divisor)?),
-        RSVD::SignedModulo { dividend, divisor } => r_smod(ev(dividend)?, ev(divisor)?),
-        RSVD::Exp { value, exponent } => r_exp(ev(value)?, ev(exponent)?),
-        RSVD::SignExtend { size, value } => r_signextend(ev(size)?, ev(value)?),
-        RSVD::LessThan { left, right } => b2w(ev(left)? < ev(right)?),
-        RSVD::GreaterThan { left, right } => b2w(ev(left)? > ev(right)?),
-        RSVD::SignedLessThan { left, right } => b2w(r_slt(ev(left)?, ev(right)?)),
-        RSVD::SignedGreaterThan { left, right } => b2w(r_slt(ev(right)?, ev(left)?)),
-        RSVD::Equals { left, right } => b2w(ev(left)? == ev(right)?),
-        RSVD::IsZero { number } => b2w(ev(number)? == U256::ZERO),
-        RSVD::And { left, right } => ev(left)? & ev(right)?,
-        RSVD::Or { left, right } => ev(left)? | ev(right)?,
-        RSVD::Xor { left, right } => ev(left)? ^ ev(right)?,
-        RSVD::Not { value } => !ev(value)?,
-        RSVD::LeftShift { shift, value } => r_shl(ev(shift)?, ev(value)?),
-        RSVD::RightShift { shift, value } => r_shr(ev(shift)?, ev(value)?),
-        RSVD::ArithmeticRightShift { shift, value } => r_sar(ev(shift)?, ev(value)?),
+        RSVD::Add { left, right } => ev_env(left, env)?.wrapping_add(ev_env(right, env)?),
+        RSVD::Multiply { left, right } => ev_env(left, env)?.wrapping_mul(ev_env(right, env)?),
+        RSVD::Subtract { left, right } => ev_env(left, env)?.wrapping_sub(ev_env(right, env)?),
+        RSVD::Divide { dividend, divisor } => r_div(ev_env(dividend, env)?, ev_env(divisor, env)?),
+        RSVD::SignedDivide { dividend, divisor } => r_sdiv(ev_env(dividend, env)?, ev_env(divisor, env)?),
+        RSVD::Modulo { dividend, divisor } => r_mod(ev_env(dividend, env)?, ev_env(divisor, env)?),
+        RSVD::SignedModulo { dividend, divisor } => r_smod(ev_env(dividend, env)?, ev_env(divisor, env)?),
+        RSVD::Exp { value, exponent } => r_exp(ev_env(value, env)?, ev_env(exponent, env)?),
+        RSVD::SignExtend { size, value } => r_signextend(ev_env(size, env)?, ev_env(value, env)?),
+        RSVD::LessThan { left, right } => b2w(ev_env(left, env)? < ev_env(right, env)?),
+        RSVD::GreaterThan { left, right } => b2w(ev_env(left, env)? > ev_env(right, env)?),
+        RSVD::SignedLessThan { left, right } => b2w(r_slt(ev_env(left, env)?, ev_env(right, env)?)),
+        RSVD::SignedGreaterThan { left, right } => b2w(r_slt(ev_env(right, env)?, ev_env(left, env)?)),
+        RSVD::Equals { left, right } => b2w(ev_env(left, env)? == ev_env(right, env)?),
+        RSVD::IsZero { number } => b2w(ev_env(number, env)? == U256::ZERO),
+        RSVD::And { left, right } => ev_env(left, env)? & ev_env(right, env)?,
+        RSVD::Or { left, right } => ev_env(left, env)? | ev_env(right, env)?,
+        RSVD::Xor { left, right } => ev_env(left, env)? ^ ev_env(right, env)?,
+        RSVD::Not { value } => !ev_env(value, env)?,
+        RSVD::LeftShift { shift, value } => r_shl(ev_env(shift, env)?, ev_env(value, env)?),
+        RSVD::RightShift { shift, value } => r_shr(ev_env(shift, env)?, ev_env(value, env)?),
+        RSVD::ArithmeticRightShift { shift, value } => r_sar(ev_env(shift, env)?, ev_env(value, env)?),
         // a load evaluates to what was loaded; storage starts out all zero
-        RSVD::SLoad { value, .. } => ev(value)?,
+        RSVD::SLoad { value, .. } => ev_env(value, env)?,
         RSVD::UnwrittenStorageValue { .. } => U256::ZERO,
-        _ => return None,
+        other => return env(other),
     })
 }
+pub(crate) fn ev(v: &Arc<RSV>) -> Option<U256> { ev_env(v, &|_| None) }
 /// (value of the raw tree, value of the constant-folded tree)
 fn ev2(v: &Arc<RSV>) -> (Option<U256>, Option<U256>) { (ev(v), ev(&v.constant_fold())) }
 pub(crate) fn known(x: U256) -> Arc<RSV> { RSV::new_known_value(0, KnownWord::from_le(x), Provenance::Synthetic, None) }
